@@ -97,6 +97,18 @@ def _run(tape):
     if unkillable:
         run.probe('kill_failed_worker_lives_on')
     left = [pid for pid in (out.alive_after_grace or []) if pid not in unkillable]
+    # an unkillable worker is excused only while its replay lasts: one whose replay returns (a late answer) must be gone
+    # some time after the run ended; one that hangs for ever cannot be
+    last_played = {}
+    for pid, tag in world.played:
+        last_played[pid] = world.effective(tag)
+    lingering = [pid for pid in (getattr(out, 'alive_eventually', None) or []) if pid in unkillable and last_played.get(pid) != 'worker_hang']
+    if lingering:
+        run.violate('no_worker_left_behind', 'unkillable-worker-never-leaves:%s' % sc.consume,
+                    'worker(s) %s could not be killed after the timeout; their replay returned long ago, the run %s, and %.0f s later they are still alive' % (
+                        lingering, 'completed' if sc.consume == 'full' else 'was abandoned (%s)' % sc.consume, sc.timeout + 3.0))
+    elif unkillable and any(last_played.get(pid) != 'worker_hang' for pid in unkillable):
+        run.probe('unkillable_worker_left_after_its_replay_returned')
     if left:
         reason = 'hung' if any(b in ('worker_hang',) for b in sc.behaviours) else 'idle'
         run.violate('no_worker_left_behind', 'worker-alive-after-run:%s:%s' % (sc.consume, reason),
